@@ -8,7 +8,7 @@ use ec_linear::genome::vector::Vector;
 use ec_linear::mutator::umad::Umad;
 use ec_linear::mutator::with_one_over_length::WithOneOverLength;
 use ec_linear::mutator::with_rate::WithRate;
-use mcx::{explore, Alphabet, ChoiceRng, Env, Run};
+use mcx::{explore, explore_bounded, Alphabet, ChoiceRng, Env, Run};
 use push::genome::plushy::{Plushy, PushGene};
 use push::instruction::PushInstruction;
 use rand::distr::Distribution;
@@ -289,6 +289,81 @@ pub fn umad_case(gk: GenomeKind, kind: UmadKind, a: (u32, u32), d: (u32, u32), g
     (st.leaves, st.choice_points, bad, outs.len())
 }
 
+/// Long parents (around 64, 128, 256 genes, where a word-sized mask, a `u8` index or a fixed buffer
+/// would run out): every stream with at most `dev` non-default words over the grid plus the extreme
+/// words; the structural oracle on every leaf, and over all leaves every parent position must be seen
+/// both kept and deleted and (a > 0) an insertion must be seen after every parent position.
+pub fn umad_long_case(gk: GenomeKind, a: (u32, u32), d: (u32, u32), l: usize, dev: usize) -> (u64, u64, Option<(String, String)>, usize) {
+    let label = format!("UMAD on {gk:?} a={}/{} d={}/{} parent length {l} (long)", a.0, a.1, d.0, d.1);
+    let mut bad: Option<(String, String)> = None;
+    let mut kept = vec![false; l];
+    let mut deleted = vec![false; l];
+    let mut inserted_after = vec![false; l];
+    let st = explore_bounded(
+        |env| umad_once(gk, UmadKind::Plain, rate(a), rate(d), 2, l, env, Alphabet::Ext(2), false),
+        |_, r| match r {
+            Err(p) => {
+                if bad.is_none() {
+                    bad = Some(("umad/panic".into(), format!("{label}: panicked: {p}")));
+                }
+            }
+            Ok((out, produced)) => {
+                if let Some((k, w)) = umad_structure(&out, produced, l, UmadKind::Plain, a, d, 2) {
+                    if bad.is_none() {
+                        bad = Some((format!("umad/{k}"), format!("{label}: {w}")));
+                    }
+                }
+                let mut present = vec![false; l];
+                let mut last_old: Option<usize> = None;
+                for g in &out {
+                    match g {
+                        Gene::Old(i) if *i < l => {
+                            present[*i] = true;
+                            last_old = Some(*i);
+                        }
+                        Gene::New { .. } => {
+                            // a new gene directly after a surviving parent gene i counts for position i; after a
+                            // deleted one it cannot be attributed and is ignored here
+                            if let Some(i) = last_old {
+                                inserted_after[i] = true;
+                            }
+                            last_old = None;
+                        }
+                        _ => {}
+                    }
+                }
+                for i in 0..l {
+                    if present[i] {
+                        kept[i] = true;
+                    } else {
+                        deleted[i] = true;
+                    }
+                }
+            }
+        },
+        dev,
+        5_000_000,
+    );
+    if st.capped {
+        return (st.leaves, st.choice_points, Some(("machinery/cap".into(), format!("{label}: capped"))), 0);
+    }
+    if bad.is_none() && d.0 > 0 && d.0 < d.1 {
+        let never_kept: Vec<usize> = (0..l).filter(|i| !kept[*i]).collect();
+        let never_deleted: Vec<usize> = (0..l).filter(|i| !deleted[*i]).collect();
+        if !never_kept.is_empty() || !never_deleted.is_empty() {
+            bad = Some(("umad/long-support".into(), format!("{label}: over all explored streams positions {:?} are never kept and positions {:?} never deleted", &never_kept[..never_kept.len().min(6)], &never_deleted[..never_deleted.len().min(6)])));
+        }
+    }
+    // (judged where nothing is deleted, so that every new gene can be attributed to the parent position it follows)
+    if bad.is_none() && a.0 > 0 && d.0 == 0 {
+        let never: Vec<usize> = (0..l).filter(|i| !inserted_after[*i]).collect();
+        if !never.is_empty() {
+            bad = Some(("umad/long-support".into(), format!("{label}: over all explored streams no new gene is ever inserted after positions {:?}", &never[..never.len().min(6)])));
+        }
+    }
+    (st.leaves, st.choice_points, bad, 2)
+}
+
 #[derive(Clone, Copy, Debug, PartialEq, Eq)]
 pub enum FlipKind {
     VecTag,
@@ -381,6 +456,7 @@ pub fn alphabet_of(m: u32) -> Alphabet {
 }
 
 pub enum Case {
+    UmadLong(GenomeKind, (u32, u32), (u32, u32), usize, usize),
     Flip(FlipKind, bool, (u32, u32), usize, u32),
     Umad(GenomeKind, UmadKind, (u32, u32), (u32, u32), usize, usize, u32, bool),
 }
@@ -402,6 +478,13 @@ pub fn cases(quick: bool) -> Vec<Case> {
                     v.push(Case::Flip(fk, false, *r, l, EXT + 2));
                 }
                 v.push(Case::Flip(fk, true, (1, l.max(1) as u32), l, EXT + l.max(1) as u32));
+            }
+        }
+    }
+    for gk in [GenomeKind::Vector, GenomeKind::Plushy] {
+        for l in if quick { vec![64usize, 65, 129, 256, 257] } else { vec![31, 32, 33, 63, 64, 65, 100, 127, 128, 129, 255, 256, 257, 300] } {
+            for (a, d) in [((1u32, 2u32), (1u32, 2u32)), ((1, 1), (1, 2)), ((1, 2), (0, 1))] {
+                v.push(Case::UmadLong(gk, a, d, l, if quick || l > 130 { 1 } else { 2 }));
             }
         }
     }
@@ -438,6 +521,7 @@ pub fn cases(quick: bool) -> Vec<Case> {
 
 pub fn run_case(c: &Case) -> (u64, u64, Option<(String, String)>, usize) {
     match c {
+        Case::UmadLong(gk, a, d, l, dev) => umad_long_case(*gk, *a, *d, *l, *dev),
         Case::Flip(fk, ool, r, l, m) => flip_case(*fk, *ool, *r, *l, *m),
         Case::Umad(gk, kind, a, d, g, l, m, via) => umad_case(*gk, *kind, *a, *d, *g, *l, *m, *via),
     }
@@ -445,6 +529,7 @@ pub fn run_case(c: &Case) -> (u64, u64, Option<(String, String)>, usize) {
 
 fn case_json(c: &Case) -> Value {
     match c {
+        Case::UmadLong(gk, a, d, l, dev) => json!({"check":"C11","scenario":"umad-long","genome":format!("{gk:?}"),"a":[a.0,a.1],"d":[d.0,d.1],"l":l,"dev":dev}),
         Case::Flip(fk, ool, r, l, m) => json!({"check":"C11","scenario":"flip","kind":format!("{fk:?}"),"one_over_length":ool,"rate":[r.0,r.1],"l":l,"m":m}),
         Case::Umad(gk, kind, a, d, g, l, m, via) => json!({"check":"C11","scenario":"umad","genome":format!("{gk:?}"),"kind":format!("{kind:?}"),"a":[a.0,a.1],"d":[d.0,d.1],"g":g,"l":l,"m":m,"via":via}),
     }
@@ -475,7 +560,7 @@ pub fn run(run: &mut Run) {
     run.states = cs.len() as u64;
     run.traces_validated = run.evaluations;
     run.distinct_nontrivial = nontrivial;
-    run.rule = "WithRate / WithOneOverLength on Vec<TagBit>, Vector<TagBit>, Bitstring and through Mutate; Umad (new / new_with_empty_rate / new_without_empty) on Vector<Gene>, Plushy and Bitstring, through &, by value and through Mutate; all parent lengths 0..L, all lattice rates, all grid word sequences, and (lengths <= 3 for flips, <= 2 for UMAD) all sequences over the grid plus the extreme words 0 and all-ones; structural oracle on every leaf (positions preserved, subsequence order, at most one insertion per parent position, provenance of new genes, boundary rates). non-trivial = scenarios with more than one distinct output".into();
+    run.rule = "WithRate / WithOneOverLength on Vec<TagBit>, Vector<TagBit>, Bitstring and through Mutate; Umad (new / new_with_empty_rate / new_without_empty) on Vector<Gene>, Plushy and Bitstring, through &, by value and through Mutate; all parent lengths 0..L, all lattice rates, all grid word sequences, and (lengths <= 3 for flips, <= 2 for UMAD) all sequences over the grid plus the extreme words 0 and all-ones; plus UMAD on long parents (64..257, thorough 31..300) under every stream with at most 1 (2) non-default words; structural oracle on every leaf (positions preserved, subsequence order, at most one insertion per parent position, provenance of new genes, boundary rates). non-trivial = scenarios with more than one distinct output".into();
     run.bound("max_parent_length", json!(if run.quick() { 3 } else { 4 }));
     run.bound("rates", json!(if run.quick() { "{0, 1/2, 1, 2}" } else { "{0, 1/4, 1/2, 3/4, 1, 2}" }));
     run.assumptions = vec!["structure is rate independent: lattice rates reach both outcomes of every coin".into()];
@@ -494,6 +579,10 @@ pub fn replay(v: &Value) -> bool {
                 .find(|k| Some(format!("{k:?}").as_str()) == v["kind"].as_str())
                 .unwrap_or(FlipKind::VecTag);
             Case::Flip(fk, v["one_over_length"].as_bool().unwrap_or(false), pair(&v["rate"]), l, m)
+        }
+        Some("umad-long") => {
+            let gk = [GenomeKind::Vector, GenomeKind::Plushy].into_iter().find(|k| Some(format!("{k:?}").as_str()) == v["genome"].as_str()).unwrap_or(GenomeKind::Vector);
+            Case::UmadLong(gk, pair(&v["a"]), pair(&v["d"]), l, v["dev"].as_u64().unwrap_or(1) as usize)
         }
         Some("umad") => {
             let gk = [GenomeKind::Vector, GenomeKind::Plushy, GenomeKind::Bits]
